@@ -16,7 +16,8 @@ from harness.topo_common import (leaf_schema, dict_schema, dict_topo, nest, rel_
 PROP = 'C06'
 LEAN_TARGETS = ['VivProps.C06']
 DRIVER = 'Topo'
-REQUIRED_THEOREMS = ['read_write_same_node', 'inverse_single', 'apply_single', 'apply_single_frame']
+REQUIRED_THEOREMS = ['read_write_same_node', 'inverse_single', 'apply_single', 'apply_single_frame',
+                     'multi_two_applied_partial']
 ANCHORS = [
     ('vivarium/core/store.py', ['Store._topology_ports', 'Store.outer_path', 'Store._establish_path',
                                 'Store._apply_config', 'Store.schema_topology', 'Store.get_path',
@@ -29,7 +30,7 @@ ANCHORS = [
     ('vivarium/core/engine.py', ['invert_topology', 'Engine._process_state', 'Engine.apply_update',
                                  'Engine._send_updates', '_process_update']),
 ]
-BUDGET = {'quick': 300, 'thorough': 12000}
+BUDGET = {'quick': 600, 'thorough': 12000}
 RULE = ('cases: a probe process at depth 0-3 with 1-4 ports over a designed hierarchy (stores A/B/C at '
         'any ancestor level, variables x/y/z/w); port forms: tuple path, `_path` dictionary with '
         'splits/renames, dictionary without `_path`, leaf port, nested ports, glob ports (tuple, '
@@ -506,16 +507,18 @@ def shrink(case):
         yield c
 
 
-LEVEL_TEXT = ('Lean 4 theorems over all trees, schemas, topologies, process positions and port variables '
-              '(unbounded): if the view built by walking the tree shows node a for variable v, the update '
-              'inverted lexically for v alone is exactly the single-path update to a, applying it changes a '
-              'by the updater and nothing else (frame); colliding leaf ports are all carried in '
-              '`_multi_update` and applied as a fold. Tied to store.py/topology.py/engine.py by a '
-              'differential check against the real Engine plus a model-independent read/write oracle.')
+LEVEL_TEXT = ('Lean 4 theorems over all trees, schemas, topologies, process positions and declared port variables '
+              '(unbounded): if the view built by WALKING the tree shows node a for variable v, the update '
+              'inverted LEXICALLY for v alone is exactly the single-path update to a; applying it leaves '
+              'f(old, u) in a and every node at a diverging path untouched; the value read for v is the value '
+              'of a. Two leaf ports on one variable (F5 shape): both values are carried in `_multi_update` and '
+              'applied as a fold. Tied to store.py/topology.py/engine.py by a differential check against the '
+              'real Engine plus a model-independent read/write oracle.')
 LEVEL_NOTE = ('Trusted: Lean kernel; axioms ⊆ {propext, Classical.choice, Quot.sound}; hand-written model '
-              'validated differentially on snapshots of the real Store tree. `multi_all_applied` is proved '
-              'for n leaf/variable writes landing on one node through tuple paths (the F5 shape); the general '
-              'n-variable statement over arbitrary port forms is checked by the oracle, not proved. '
-              'Outside WellFormed (documented candidate findings): ports omitted from the topology, a direct '
-              'port listed before a tuple-wired glob port on the same variable.')
-TECHNIQUE = 'Lean 4 proof (induction over port paths; walking = lexical bridge from C17) + differential model/code check'
+              'validated differentially on snapshots of the real Store tree (the declaration of nodes by '
+              '`_topology_ports` is exercised through the real engine, not modelled). `multi_two_applied_partial` '
+              'covers two leaf ports; the n-variable statement over arbitrary port forms is checked by the oracle '
+              '(up to 9 variables) and the correspondence, not proved. Outside WellFormed (candidate findings, '
+              'notes/C06.md): ports omitted from a topology level without `_path` (read by default, updates '
+              'dropped); a direct port listed before a tuple-wired glob port on the same variable (update lost).')
+TECHNIQUE = 'Lean 4 proof (induction over declared variables; walking = lexical bridge from C17) + differential model/code check'
